@@ -786,6 +786,9 @@ def run_check(rec, case, fake):
     raise ValueError(kind)
 
 
+_SEEN = {}
+
+
 def run_rect_case(rec, case, fake):
     """One execution under the monitors; on violation shrink, then report the small case."""
     d = Deferred(rec)
@@ -795,6 +798,11 @@ def run_rect_case(rec, case, fake):
     keys = list(dict.fromkeys(k for k, _, _ in d.viols))
     reported = set()
     for key in keys:
+        _SEEN[key] = _SEEN.get(key, 0) + 1
+        if _SEEN[key] > 4:
+            # the recorder keeps three cases per mechanism: count the rest without shrinking
+            rec.violation(key, case, [v[2] for v in d.viols if v[0] == key][0])
+            continue
         small = case
         if case["kind"] != "tilegrid":
             small = shrink_rect(case, key, lambda c: run_check(_Quiet(), c, fake))
